@@ -12,11 +12,11 @@
      5. header
      6. decode_sound, decode_complete, decode_total, decode_err_id, decode_wf *)
 From Coq Require Import ZArith.
-From RV Require Import Base.Prelude Base.Cursor Name.NameModel Name.NameSpec Name.NameProofs
+From RV Require Import Base.Prelude Base.Cursor Name.NameModel Name.NameSpec
   Wire.WireTypes Wire.WireModel Wire.WireGrammar.
 Open Scope N_scope.
 
-Definition bytes_ok (l : list N) : Prop := Forall (fun b => b < 256) l.
+Definition bytes_ok (l : list byte) : Prop := Forall (fun b => b < 256) l.
 
 (* neither of the two outcomes that no Rust execution has *)
 Definition fine {E A} (r : res E A) : Prop := r <> Panic /\ r <> OutOfFuel.
@@ -378,6 +378,36 @@ Section Names.
     - intros p Hp1 Hp2. apply IH. lia.
     - unfold LABEL_FUEL. lia.
     - lia.
+  Qed.
+
+  (* ... and any fuel above that bound gives the same result *)
+  Lemma name_loop_ext rec1 rec2 start :
+    (forall p, p < start -> p < 16384 -> rec1 p = rec2 p) ->
+    forall lf pos len acc,
+      name_loop rec1 start lf (at_offset bs pos) len acc
+      = name_loop rec2 start lf (at_offset bs pos) len acc.
+  Proof.
+    intros Hrec. induction lf as [|lf IH]; intros pos len acc; [reflexivity|].
+    cbn [name_loop]. rewrite next_u8_at. destruct (at_ bs pos) as [size|] eqn:Esz; [|reflexivity].
+    pose proof (at_lt _ _ _ Esz) as Hpos. pose proof (at_byte _ _ _ Hbs Esz) as Hsize.
+    destruct (size <=? LABEL_MAX_LEN).
+    - destruct (size =? 0); [reflexivity|]. rewrite take_at by lia.
+      destruct (sliceN bs (pos + 1) size) as [os|]; [|reflexivity].
+      destruct (DOMAINNAME_MAX_LEN <? len + 1 + size); [reflexivity|apply IH].
+    - destruct (192 <=? size); [|reflexivity].
+      rewrite next_u8_at. destruct (at_ bs (pos + 1)) as [lo|] eqn:Elo; [|reflexivity].
+      pose proof (at_byte _ _ _ Hbs Elo) as Hlo. pose proof (land_63_le size Hsize) as H63.
+      destruct (N.leb_spec start (u16_be (N.land size 63) lo)) as [|Hlt]; [reflexivity|].
+      rewrite Hrec; [reflexivity|exact Hlt|unfold u16_be; lia].
+  Qed.
+
+  Lemma decode_name_fuel_indep : forall h1 h2 pos,
+    N.min pos 16384 < N.of_nat h1 -> N.min pos 16384 < N.of_nat h2 ->
+    decode_name h1 bs (at_offset bs pos) = decode_name h2 bs (at_offset bs pos).
+  Proof.
+    induction h1 as [|a IH]; intros [|b] pos H1 H2; try lia.
+    cbn [decode_name]. change (cpos (at_offset bs pos)) with pos.
+    apply name_loop_ext. intros p Hp Hp2. apply IH; lia.
   Qed.
 
   Lemma decode_name_fuel pos : fine (decode_name HOP_FUEL bs (at_offset bs pos)).
@@ -803,6 +833,323 @@ Section Body.
     Qed.
   End Many.
 End Body.
+
+(* ------------------------------------------------------------------ *)
+(* 5. header                                                           *)
+(* ------------------------------------------------------------------ *)
+
+Lemma decode_header_sound (bs : list byte) h c : bytes_ok bs ->
+  decode_header (at_offset bs 0) = Ok (h, c) ->
+  HeaderIs bs h /\ c = at_offset bs 4 /\ 4 <= llen bs.
+Proof.
+  intros Hbs H. unfold decode_header in H. rewrite next_u16_at in H.
+  change (0 + 1) with 1 in H. change (0 + 2) with 2 in H.
+  destruct (at_ bs 0) as [a|] eqn:E0; [|discriminate].
+  destruct (at_ bs 1) as [b|] eqn:E1; [|discriminate].
+  rewrite next_u8_at in H. destruct (at_ bs 2) as [f1|] eqn:E2; [|discriminate].
+  rewrite next_u8_at in H. change (2 + 1) with 3 in H. change (3 + 1) with 4 in H.
+  destruct (at_ bs 3) as [f2|] eqn:E3; [|discriminate].
+  injection H as <- <-.
+  destruct (header_bits f1 (at_byte _ _ _ Hbs E2)) as (B1 & B2 & B3 & B4 & _ & B6 & _).
+  destruct (header_bits f2 (at_byte _ _ _ Hbs E3)) as (_ & _ & _ & _ & C5 & _ & C7).
+  split; [|split; [reflexivity|apply at_lt in E3; lia]].
+  exists f1, f2. cbn [h_id h_qr h_opcode h_aa h_tc h_rd h_ra h_rcode].
+  split; [exists a, b; auto|]. repeat split; assumption.
+Qed.
+
+Lemma decode_header_complete (bs : list byte) h : bytes_ok bs -> HeaderIs bs h ->
+  decode_header (at_offset bs 0) = Ok (h, at_offset bs 4).
+Proof.
+  intros Hbs (f1 & f2 & (a & b & E0 & E1 & Hid) & E2 & E3 & Hqr & Hop & Haa & Htc & Hrd & Hra & Hrc).
+  change (0 + 1) with 1 in E1.
+  unfold decode_header. rewrite next_u16_at.
+  change (0 + 1) with 1. change (0 + 2) with 2. rewrite E0, E1.
+  rewrite next_u8_at, E2. rewrite next_u8_at. change (2 + 1) with 3. change (3 + 1) with 4. rewrite E3.
+  destruct (header_bits f1 (at_byte _ _ _ Hbs E2)) as (B1 & B2 & B3 & B4 & _ & B6 & _).
+  destruct (header_bits f2 (at_byte _ _ _ Hbs E3)) as (_ & _ & _ & _ & C5 & _ & C7).
+  rewrite B1, B2, B3, B4, B6, C5, C7. unfold u16_be.
+  destruct h as [i qr op aa tc rd ra rc]; cbn [h_id h_qr h_opcode h_aa h_tc h_rd h_ra h_rcode] in *.
+  subst. reflexivity.
+Qed.
+
+Lemma decode_header_fine c : fine (decode_header c).
+Proof.
+  unfold decode_header. destruct (next_u16 c) as [[i c1]|]; [|auto].
+  destruct (next_u8 c1) as [[f1 c2]|]; [|auto]. destruct (next_u8 c2) as [[f2 c3]|]; auto.
+Qed.
+
+(* the identifier an error message is sent back with: the first two octets *)
+Definition first_u16 (bs : list byte) : option N :=
+  match bs with a :: b :: _ => Some (a * 256 + b) | _ => None end.
+
+Lemma decode_header_id bs :
+  match decode_header (cur_new bs) with
+  | Ok (h, _) => first_u16 bs = Some (h_id h)
+  | Err e => snd e = first_u16 bs
+  | _ => True
+  end.
+Proof.
+  destruct bs as [|a [|b [|f1 [|f2 t]]]]; reflexivity.
+Qed.
+
+(* ------------------------------------------------------------------ *)
+(* 6. the message decoder                                              *)
+(* ------------------------------------------------------------------ *)
+
+(* [decode] with its field reads named *)
+Lemma decode_eq bs : decode bs =
+  (let* (h, c0) := decode_header (at_offset bs 0) in
+   let id := h_id h in
+   let* (qd, c1) := u16_or id HeaderTooShort c0 in
+   let* (an, c2) := u16_or id HeaderTooShort c1 in
+   let* (ns, c3) := u16_or id HeaderTooShort c2 in
+   let* (ar, c4) := u16_or id HeaderTooShort c3 in
+   let* (qs, c5) := decode_many (decode_question bs id) (N.to_nat qd) c4 in
+   let* (ans, c6) := decode_many (decode_rr bs id) (N.to_nat an) c5 in
+   let* (auth, c7) := decode_many (decode_rr bs id) (N.to_nat ns) c6 in
+   let* (addl, _) := decode_many (decode_rr bs id) (N.to_nat ar) c7 in
+   Ok {| m_header := h; m_questions := qs; m_answers := ans; m_authority := auth; m_additional := addl |}).
+Proof. reflexivity. Qed.
+
+Lemma llen_to_nat {A} (l : list A) : N.to_nat (llen l) = length l.
+Proof. unfold llen. apply Nat2N.id. Qed.
+
+Theorem decode_sound bs m :
+  Forall (fun b => b < 256) bs -> decode bs = Ok m -> Parses bs m.
+Proof.
+  intros Hbs H. rewrite decode_eq in H.
+  inv_bind H. apply decode_header_sound in Eq as (Hh & -> & H4); [|exact Hbs].
+  cbv zeta in H.
+  inv_bind H. apply u16_or_sound in Eq as (Hqd & -> & _).
+  inv_bind H. apply u16_or_sound in Eq as (Han & -> & _).
+  inv_bind H. apply u16_or_sound in Eq as (Hns & -> & _).
+  inv_bind H. apply u16_or_sound in Eq as (Har & -> & H12).
+  inv_bind H.
+  apply (decode_many_sound bs _ (QuestionAt bs) (decode_question_sound bs Hbs _)) in Eq
+    as (p1 & S1 & L1 & -> & Hp1); [|exact H12].
+  inv_bind H.
+  apply (decode_many_sound bs _ (RRAt bs) (decode_rr_sound bs Hbs _)) in Eq
+    as (p2 & S2 & L2 & -> & Hp2); [|exact Hp1].
+  inv_bind H.
+  apply (decode_many_sound bs _ (RRAt bs) (decode_rr_sound bs Hbs _)) in Eq
+    as (p3 & S3 & L3 & -> & Hp3); [|exact Hp2].
+  inv_bind H.
+  apply (decode_many_sound bs _ (RRAt bs) (decode_rr_sound bs Hbs _)) in Eq
+    as (p4 & S4 & L4 & -> & Hp4); [|exact Hp3].
+  injection H as <-. unfold Parses. cbn [m_header m_questions m_answers m_authority m_additional].
+  assert (Hl : forall {A} (l : list A) n, length l = N.to_nat n -> llen l = n).
+  { intros A xs k Hn. unfold llen. rewrite Hn. apply N2Nat.id. }
+  rewrite (Hl _ _ _ L1), (Hl _ _ _ L2), (Hl _ _ _ L3), (Hl _ _ _ L4).
+  split; [exact Hh|]. split; [exact Hqd|]. split; [plia Han|]. split; [plia Hns|]. split; [plia Har|].
+  exists p1, p2, p3, p4. split; [plia S1|]. auto.
+Qed.
+
+Theorem decode_complete bs m :
+  Forall (fun b => b < 256) bs -> Parses bs m -> decode bs = Ok m.
+Proof.
+  intros Hbs (Hh & Hqd & Han & Hns & Har & p1 & p2 & p3 & p4 & S1 & S2 & S3 & S4).
+  rewrite decode_eq. rewrite (decode_header_complete _ _ Hbs Hh). cbn [bind]. cbv zeta.
+  rewrite (u16_or_complete _ _ _ _ _ Hqd). cbn [bind]. norm_pos.
+  rewrite (u16_or_complete _ _ _ _ _ Han). cbn [bind]. norm_pos.
+  rewrite (u16_or_complete _ _ _ _ _ Hns). cbn [bind]. norm_pos.
+  rewrite (u16_or_complete _ _ _ _ _ Har). cbn [bind]. norm_pos.
+  rewrite !llen_to_nat.
+  rewrite (decode_many_complete bs _ (QuestionAt bs)
+             (fun p x q => decode_question_complete bs Hbs _ p x q) _ _ _ S1). cbn [bind].
+  rewrite (decode_many_complete bs _ (RRAt bs)
+             (fun p x q => decode_rr_complete bs Hbs _ p x q) _ _ _ S2). cbn [bind].
+  rewrite (decode_many_complete bs _ (RRAt bs)
+             (fun p x q => decode_rr_complete bs Hbs _ p x q) _ _ _ S3). cbn [bind].
+  rewrite (decode_many_complete bs _ (RRAt bs)
+             (fun p x q => decode_rr_complete bs Hbs _ p x q) _ _ _ S4). cbn [bind].
+  destruct m; reflexivity.
+Qed.
+
+(* never Panic, never OutOfFuel: the fuel of the model is never the reason a
+   decoding ends (HOP_FUEL = 16385 nested calls, LABEL_FUEL = 130 iterations) *)
+Theorem decode_total bs :
+  Forall (fun b => b < 256) bs -> decode bs <> Panic /\ decode bs <> OutOfFuel.
+Proof.
+  intros Hbs. change (fine (decode bs)). rewrite decode_eq.
+  apply fine_bind; [apply decode_header_fine|]. intros [h c0] Eq.
+  apply decode_header_sound in Eq as (_ & -> & _); [|exact Hbs]. cbv zeta.
+  apply fine_bind; [apply u16_or_fine|]. intros [qd c1] Eq. apply u16_or_sound in Eq as (_ & -> & _).
+  apply fine_bind; [apply u16_or_fine|]. intros [an c2] Eq. apply u16_or_sound in Eq as (_ & -> & _).
+  apply fine_bind; [apply u16_or_fine|]. intros [ns c3] Eq. apply u16_or_sound in Eq as (_ & -> & _).
+  apply fine_bind; [apply u16_or_fine|]. intros [ar c4] Eq. apply u16_or_sound in Eq as (_ & -> & H12).
+  assert (HQ : forall p x c', decode_question bs (h_id h) (at_offset bs p) = Ok (x, c') ->
+                              exists q, c' = at_offset bs q).
+  { intros p x c' Hd. apply decode_question_sound in Hd as (q & _ & -> & _); [eauto|exact Hbs]. }
+  assert (HR : forall p x c', decode_rr bs (h_id h) (at_offset bs p) = Ok (x, c') ->
+                              exists q, c' = at_offset bs q).
+  { intros p x c' Hd. apply decode_rr_sound in Hd as (q & _ & -> & _); [eauto|exact Hbs]. }
+  apply fine_bind; [apply (decode_many_fine bs _ (decode_question_fine bs Hbs _) HQ)|].
+  intros [qs c5] Eq.
+  apply (decode_many_sound bs _ (QuestionAt bs) (decode_question_sound bs Hbs _)) in Eq
+    as (p1 & _ & _ & -> & Hp1); [|exact H12].
+  apply fine_bind; [apply (decode_many_fine bs _ (decode_rr_fine bs Hbs _) HR)|].
+  intros [ans c6] Eq.
+  apply (decode_many_sound bs _ (RRAt bs) (decode_rr_sound bs Hbs _)) in Eq
+    as (p2 & _ & _ & -> & Hp2); [|exact Hp1].
+  apply fine_bind; [apply (decode_many_fine bs _ (decode_rr_fine bs Hbs _) HR)|].
+  intros [auth c7] Eq.
+  apply (decode_many_sound bs _ (RRAt bs) (decode_rr_sound bs Hbs _)) in Eq
+    as (p3 & _ & _ & -> & Hp3); [|exact Hp2].
+  apply fine_bind; [apply (decode_many_fine bs _ (decode_rr_fine bs Hbs _) HR)|].
+  intros [addl c8] _. auto.
+Qed.
+
+(* every error carries the first two octets as its id, when there are two *)
+Theorem decode_err_first bs e : decode bs = Err e -> werr_id e = first_u16 bs.
+Proof.
+  intro H. unfold werr_id. rewrite decode_eq in H.
+  pose proof (decode_header_id bs) as Hid. change (cur_new bs) with (at_offset bs 0) in Hid.
+  destruct (decode_header (at_offset bs 0)) as [[h c0]|e0| |]; cbn [bind] in H; try discriminate.
+  - cbv zeta in H. rewrite Hid.
+    repeat match type of H with
+           | bind ?r _ = Err _ =>
+             let Eq := fresh "Eq" in
+             destruct r as [[? ?]|?| |] eqn:Eq; cbn [bind] in H;
+             [ | injection H as <-;
+                 first [ eapply u16_or_err; eassumption
+                       | eapply decode_many_err; [|eassumption];
+                         first [apply decode_question_err | apply decode_rr_err] ]
+               | discriminate H | discriminate H ]
+           end.
+    discriminate H.
+  - injection H as <-. exact Hid.
+Qed.
+
+Theorem decode_err_id bs e : decode bs = Err e ->
+  (2 <= llen bs -> exists a b, at_ bs 0 = Some a /\ at_ bs 1 = Some b /\ werr_id e = Some (a * 256 + b))
+  /\ (llen bs < 2 -> werr_id e = None).
+Proof.
+  intro H. apply decode_err_first in H. rewrite H.
+  destruct bs as [|a [|b t]]; cbn [first_u16]; split; intro Hl; try reflexivity;
+    try (unfold llen in Hl; cbn [length] in Hl; lia).
+  exists a, b. auto.
+Qed.
+
+(* ------------------------------------------------------------------ *)
+(* 7. what the grammar accepts is well formed                          *)
+(* ------------------------------------------------------------------ *)
+
+Lemma wd_lower_small b : b < 256 -> lower b < 256.
+Proof.
+  unfold lower, is_upper. destruct (N.leb_spec 65 b); destruct (N.leb_spec b 90); cbn [andb]; lia.
+Qed.
+
+Lemma wd_lower_not_upper b : is_upper (lower b) = false.
+Proof.
+  unfold lower. destruct (is_upper b) eqn:Eu; [|exact Eu]. unfold is_upper in *.
+  apply andb_true_iff in Eu as [E1 E2]. apply N.leb_le in E1, E2.
+  apply andb_false_iff. right. apply N.leb_gt. lia.
+Qed.
+
+Section Wf.
+  Variable bs : list byte.
+  Hypothesis Hbs : bytes_ok bs.
+
+  Lemma NameAt_front start pos ls next : NameAt bs start pos ls next ->
+    exists front, ls = front ++ [[]] /\ Forall (fun l => l <> [] /\ wf_label l) front.
+  Proof.
+    intro H. induction H as [start pos Hz | start pos sz os ls next Hsz Hrange Hos Hna IH
+                            | start pos hi lo ls nx Hhi H192 Hlo Hlt Hna IH].
+    - exists []. split; [reflexivity|constructor].
+    - destruct IH as (front & -> & Hf). exists (map lower os :: front). split; [reflexivity|].
+      constructor; [|exact Hf].
+      pose proof (sliceN_bytes _ _ _ _ Hbs Hos) as Hob.
+      apply sliceN_spec in Hos as (Hl & _). unfold byte in Hl.
+      split.
+      + intro En. apply map_eq_nil in En. subst os. unfold llen in Hl. cbn [length] in Hl. lia.
+      + split; [rewrite wd_llen_map; lia|]. apply Forall_map.
+        unfold bytes_ok in Hob. rewrite Forall_forall in *. intros b Hb.
+        split; [apply wd_lower_small, Hob, Hb | apply wd_lower_not_upper].
+    - exact IH.
+  Qed.
+
+  Lemma NameIs_wf pos n next : NameIs bs pos n next -> wf_name n.
+  Proof.
+    intros (Hna & Hl & H255). destruct (NameAt_front _ _ _ _ Hna) as (front & Efr & Hf).
+    split; [|exact Hl]. exists front. split; [exact Efr|]. split; [exact Hf|lia].
+  Qed.
+
+  Lemma u16At_lt p v : u16At bs p v -> u16 v.
+  Proof.
+    intros (a & b & Ea & Eb & ->). apply (at_byte _ _ _ Hbs) in Ea, Eb. unfold u16. lia.
+  Qed.
+
+  Lemma u32At_lt p v : u32At bs p v -> u32 v.
+  Proof.
+    intros (a & b & c & d & Ea & Eb & Ec & Ed & ->).
+    apply (at_byte _ _ _ Hbs) in Ea, Eb, Ec, Ed. unfold u32. lia.
+  Qed.
+
+  Lemma u16sAt_lt : forall vs p, u16sAt bs p vs -> Forall u16 vs.
+  Proof.
+    induction vs as [|v vs IH]; intros p H; [constructor|].
+    destruct H as [Hv Hvs]. constructor; [eapply u16At_lt; eassumption|eapply IH; eassumption].
+  Qed.
+
+  Lemma RDataAt_wf ty len pos d next : RDataAt bs ty len pos d next -> wf_rdata ty d.
+  Proof.
+    intro H. unfold wf_rdata.
+    destruct H as [a Hsh Ha | n nx Hsh Hn | m r serial refresh retry expire minimum p1 p2 Hsh Hm Hr H1 H2 H3 H4 H5
+                  | os Hsh Hos | r e p1 p2 Hsh Hr He | pr e nx Hsh Hp1 He | segs Hsh Hlen Hs
+                  | pr w o t nx Hsh H1 H2 H3 Ht]; cbn [shape_of_rdata]; (split; [symmetry; exact Hsh|]).
+    - eapply u32At_lt; eassumption.
+    - eapply NameIs_wf; eassumption.
+    - repeat split; first [eapply NameIs_wf; eassumption | eapply u32At_lt; eassumption].
+    - eapply sliceN_bytes; eassumption.
+    - split; eapply NameIs_wf; eassumption.
+    - split; [eapply u16At_lt; eassumption|eapply NameIs_wf; eassumption].
+    - split; [exact Hlen|eapply u16sAt_lt; eassumption].
+    - repeat split; first [eapply NameIs_wf; eassumption | eapply u16At_lt; eassumption].
+  Qed.
+
+  Lemma RRAt_wf pos r next : RRAt bs pos r next -> wf_rr r.
+  Proof.
+    intros (p1 & len & Hn & Hty & Hcl & Httl & Hlen & Hd & _). unfold wf_rr.
+    split; [eapply NameIs_wf; eassumption|]. split; [eapply u16At_lt; eassumption|].
+    split; [eapply u16At_lt; eassumption|]. split; [eapply u32At_lt; eassumption|].
+    eapply RDataAt_wf; eassumption.
+  Qed.
+
+  Lemma QuestionAt_wf pos q next : QuestionAt bs pos q next -> wf_question q.
+  Proof.
+    intros (p1 & Hn & Hty & Hcl & _). unfold wf_question.
+    split; [eapply NameIs_wf; eassumption|]. split; eapply u16At_lt; eassumption.
+  Qed.
+
+  Lemma SeqAt_Forall {A} (P : N -> A -> N -> Prop) (Q : A -> Prop) :
+    (forall p x q, P p x q -> Q x) -> forall xs p q, SeqAt P p xs q -> Forall Q xs.
+  Proof.
+    intros HPQ. induction xs as [|x xs IH]; intros p q H; [constructor|].
+    destruct H as (mid & Hx & Hrest). constructor; [eapply HPQ; eassumption|eapply IH; eassumption].
+  Qed.
+
+  Lemma HeaderIs_wf h : HeaderIs bs h -> wf_header h.
+  Proof.
+    intros (f1 & f2 & Hid & _ & _ & _ & Hop & _ & _ & _ & _ & Hrc). unfold wf_header.
+    split; [eapply u16At_lt; eassumption|]. rewrite Hop, Hrc.
+    split; apply N.mod_lt; lia.
+  Qed.
+
+  Theorem Parses_wf m : Parses bs m -> wf_message m.
+  Proof.
+    intros (Hh & _ & _ & _ & _ & p1 & p2 & p3 & p4 & S1 & S2 & S3 & S4). unfold wf_message.
+    split; [apply HeaderIs_wf; exact Hh|].
+    split; [eapply SeqAt_Forall; [apply QuestionAt_wf|exact S1]|].
+    split; [eapply SeqAt_Forall; [apply RRAt_wf|exact S2]|].
+    split; eapply SeqAt_Forall; first [apply RRAt_wf|eassumption].
+  Qed.
+End Wf.
+
+Theorem decode_wf bs m :
+  Forall (fun b => b < 256) bs -> decode bs = Ok m -> wf_message m.
+Proof.
+  intros Hbs H. eapply Parses_wf; [exact Hbs|]. apply decode_sound; assumption.
+Qed.
 
 Lemma decode_short bs : llen bs < 2 -> decode bs = Err (CompletelyBusted, None).
 Proof.
